@@ -2,6 +2,7 @@ package props
 
 import (
 	"fmt"
+	"regexp"
 	"strings"
 
 	"verif/internal/corpus"
@@ -215,7 +216,16 @@ type c05Fault struct {
 	kind string // undefined/<context> or duplicate/<context>
 	text string
 	site string
+	// warmup, if set, is parsed right before the faulted text: the intact base
+	// module, which defines every name the fault leaves undefined (whatever the
+	// translator keeps between parses must not make up for the missing definition)
+	warmup string
+	// naming, if set, restricts the fault to texts LLVM rejects for a naming
+	// reason (removing a definition can also break a use-list order or a type)
+	naming bool
 }
+
+var reNamingDiag = regexp.MustCompile(`undefined|unknown|not defined|undeclared|does not name|redefinition|multiple definition|already`)
 
 // c05Faults enumerates the single-point naming faults of text.
 func c05Faults(text string) []c05Fault {
@@ -263,6 +273,10 @@ func c05Faults(text string) []c05Fault {
 		case inFunc && strings.HasSuffix(trim, ":") && !strings.Contains(trim, " ") && !isAllDigits(strings.TrimSuffix(trim, ":")):
 			// duplicate a label: add a new block with the same name at the end of the function is complex; instead repeat the label with a terminator
 			dup = "duplicate/label"
+		}
+		// removed definitions: the uses stay, the definition goes
+		if dup != "" && !inFunc && dup != "duplicate/function-declaration" || (!inFunc && strings.HasPrefix(l, "declare")) {
+			out = append(out, c05Fault{kind: "undefined/removed-definition-of-" + strings.TrimPrefix(dup, "duplicate/"), text: text[:off] + text[off+len(l):], site: fmt.Sprintf("line %d", i+1), warmup: text, naming: true})
 		}
 		if dup != "" {
 			ins := l
@@ -331,7 +345,7 @@ func c05Source(r *fw.Rec, s corpus.Source) {
 
 func c05Judge(r *fw.Rec, base string, f c05Fault) {
 	r.Eval(1)
-	ok, _, err := llvmref.Accepts(f.text)
+	ok, lmsg, err := llvmref.Accepts(f.text)
 	if err != nil {
 		r.Inconclusive("llvm tool failure")
 		return
@@ -339,6 +353,13 @@ func c05Judge(r *fw.Rec, base string, f c05Fault) {
 	if ok {
 		r.Tally("faults_llvm_accepts(not judged)", f.kind)
 		return
+	}
+	if f.naming && !reNamingDiag.MatchString(lastDiag(lmsg)) {
+		r.Tally("faults_llvm_rejects_for_another_reason(not judged)", f.kind)
+		return
+	}
+	if f.warmup != "" {
+		parseGuard(base, f.warmup)
 	}
 	m, perr, pmsg := parseGuard(base, f.text)
 	switch {
@@ -412,6 +433,14 @@ func c05Handwritten(r *fw.Rec) {
 		"undefined/local-in-phi-value":                        "define i32 @f() {\nentry:\n  br label %next\nnext:\n  %p = phi i32 [ %missing, %entry ]\n  ret i32 %p\n}\n",
 		"undefined/local-in-call-argument":                    "declare void @g(i32)\ndefine void @f() {\n  call void @g(i32 %missing)\n  ret void\n}\n",
 		"undefined/local-in-bundle":                           "declare void @g()\ndefine void @f() {\n  call void @g() [ \"deopt\"(i32 %missing) ]\n  ret void\n}\n",
+		"undefined/quoted-digit-global-is-not-the-id":         "@0 = global i32 7\n@p = global i32* @\"0\"\n",
+		"undefined/global-id-is-not-the-quoted-digit":         "@\"0\" = global i32 7\n@p = global i32* @0\n",
+		"undefined/quoted-digit-callee-is-not-the-id":         "define void @0() {\n  ret void\n}\ndefine void @f() {\n  call void @\"0\"()\n  ret void\n}\n",
+		"undefined/quoted-digit-local-is-not-the-id":          "define i32 @f(i32) {\n  ret i32 %\"0\"\n}\n",
+		"undefined/quoted-digit-type-is-not-the-id":           "%0 = type { i32 }\n@g = global %\"0\" zeroinitializer\n",
+		"undefined/type-id-is-not-the-quoted-digit":           "%\"0\" = type { i32 }\n@g = global %0 zeroinitializer\n",
+		"undefined/quoted-digit-blockaddress-function":        "define void @0() {\n  br label %b\nb:\n  ret void\n}\n@a = global i8* blockaddress(@\"0\", %b)\n",
+		"undefined/zero-padded-metadata-id":                   "!nm = !{!007}\n!8 = !{}\n",
 		"duplicate/explicit-zero-inst-and-entry-block":        "define i32 @f(i32 %x) {\n  %0 = add i32 %x, 1\n  ret i32 %0\n}\n",
 		"duplicate/explicit-zero-twice":                       "define i32 @f() {\n0:\n  %0 = add i32 1, 2\n  ret i32 %0\n}\n",
 		"duplicate/explicit-zero-block-after-param":           "define i32 @f(i32) {\n0:\n  ret i32 %0\n}\n",
